@@ -8,7 +8,9 @@ package main
 // carries an exception, parent it on the traceparent the caller sent, and count it once with the
 // matching status. The model is fed that client-visible outcome as the dispatch's outcome.
 //
-//	e2e <pipe|http> <tracing> <metrics> <recexc> <tc|tcb|none> <always|never|parent>
+//	e2e <pipe|http> <tracing> <metrics> <recexc> <tc|tcb|none> <always|never|parent> [<opts>]
+//	  opts: - | comma list of  pv=<semver> (Server.SetProtocolVersion)  cv=<version> (what the client declares; absent = none)
+//	        dbg (SetDebugErrors)  sticky (HttpServer.EnableSticky)  caps (request/response byte caps set)
 //	call <un|px|ex> <plan> <traceparent x<hex>|->
 //	  un plans: value | error | goerr | panic
 //	  px plans: n=<batches>;at=<tick>;what=<error|goerr|panic|silent|finish>   (at=-1: never) | initerr | initpanic
@@ -24,6 +26,7 @@ import (
 	"net/http/httptest"
 	"strconv"
 	"strings"
+	"time"
 
 	"github.com/Query-farm/vgi-rpc-go/vgirpc"
 	"github.com/apache/arrow-go/v18/arrow"
@@ -146,7 +149,26 @@ func c43RegisterE2E(srv *vgirpc.Server) {
 
 // ---------------------------------------------------------------- environment
 
+// c43Tee sits between the framework and the OTel hook and counts the calls the framework makes,
+// so a request that is refused before dispatch (no hook call at all) is told apart from a dispatch.
+type c43Tee struct {
+	inner        vgirpc.DispatchHook
+	starts, ends int
+}
+
+func (t *c43Tee) OnDispatchStart(ctx context.Context, info vgirpc.DispatchInfo) (context.Context, vgirpc.HookToken) {
+	t.starts++
+	return t.inner.OnDispatchStart(ctx, info)
+}
+
+func (t *c43Tee) OnDispatchEnd(ctx context.Context, tok vgirpc.HookToken, info vgirpc.DispatchInfo, stats *vgirpc.CallStatistics, err error) {
+	t.ends++
+	t.inner.OnDispatchEnd(ctx, tok, info, stats, err)
+}
+
 type c43E2E struct {
+	tee       *c43Tee
+	clientVer string
 	params *arrow.Schema
 	hs     *vgirpc.HttpServer
 	client *vgirpc.HttpClient
@@ -155,14 +177,44 @@ type c43E2E struct {
 	nDisp  int
 }
 
-func (e *c43Env) setupE2E() {
-	x := &c43E2E{params: vgirpc.VerifC38ParamsSchema(e.srv, "un")}
+func (e *c43Env) setupE2E(opts string) {
+	x := &c43E2E{params: vgirpc.VerifC38ParamsSchema(e.srv, "un"), tee: &c43Tee{inner: e.hook}}
 	e.e2e = x
+	e.srv.SetDispatchHook(x.tee)
+	opt := map[string]string{}
+	if opts != "-" {
+		for _, o := range strings.Split(opts, ",") {
+			if i := strings.IndexByte(o, '='); i > 0 {
+				opt[o[:i]] = o[i+1:]
+			} else {
+				opt[o] = "1"
+			}
+			e.c.Stat("e2e-opt-" + strings.SplitN(o, "=", 2)[0])
+		}
+	}
+	if v := opt["pv"]; v != "" {
+		e.srv.SetProtocolVersion(v)
+	}
+	if opt["dbg"] != "" {
+		e.srv.SetDebugErrors(true)
+	}
+	x.clientVer = opt["cv"]
 	if e.transport == "http" {
 		x.hs = vgirpc.NewHttpServer(e.srv)
 		x.hs.SetProducerBatchLimit(1)
 		x.hs.SetCompressionLevel(0)
-		cl, err := vgirpc.NewHttpClient("http://c43.test", vgirpc.WithClientHTTPClient(&http.Client{Transport: e}))
+		if opt["sticky"] != "" {
+			x.hs.EnableSticky(time.Minute)
+		}
+		if opt["caps"] != "" {
+			x.hs.SetMaxRequestBytes(1 << 20)
+			x.hs.SetMaxResponseBytes(1 << 20)
+		}
+		copts := []vgirpc.HttpClientOption{vgirpc.WithClientHTTPClient(&http.Client{Transport: e})}
+		if x.clientVer != "" {
+			copts = append(copts, vgirpc.WithClientProtocolVersion(x.clientVer))
+		}
+		cl, err := vgirpc.NewHttpClient("http://c43.test", copts...)
 		if err != nil {
 			panic(err)
 		}
@@ -227,9 +279,29 @@ func c43FrameStream(schema *arrow.Schema, batches []arrow.RecordBatch) []byte {
 }
 
 // observe: one dispatch has been served; compare what the hook did with the client-visible outcome.
-func (e *c43Env) observe(spansBefore int, clientFailed bool, where string) {
+func (e *c43Env) observe(spansBefore, startsBefore, endsBefore int, clientFailed bool, where string) {
 	c := e.c
 	x := e.e2e
+	starts, ends := x.tee.starts-startsBefore, x.tee.ends-endsBefore
+	if starts == 0 && ends == 0 {
+		// refused before dispatch (e.g. the pipe transport's protocol-version gate): the hook was never
+		// involved, so nothing may have been started or counted — and the client must have been told.
+		c.Stat("e2e-no-dispatch")
+		if !clientFailed {
+			c.Oracle("e2e-call-without-dispatch", fmt.Sprintf("%s: the client got a successful response but no dispatch hook ran", where))
+		}
+		if len(e.spans) != spansBefore {
+			c.Oracle("e2e-dispatch-span-count", fmt.Sprintf("%s: spans were started without a dispatch", where))
+		}
+		if okN, errN, _ := e.collect(); okN != e.cntOK || errN != e.cntErr {
+			c.Oracle("e2e-count-mismatch", fmt.Sprintf("%s: the request counter moved without a dispatch", where))
+			e.cntOK, e.cntErr = okN, errN
+		}
+		return
+	}
+	if starts != 1 || ends != 1 {
+		c.Oracle("e2e-hook-calls", fmt.Sprintf("%s: one request made %d OnDispatchStart and %d OnDispatchEnd calls", where, starts, ends))
+	}
 	k := x.nDisp
 	x.nDisp++
 	created := len(e.spans) - spansBefore
@@ -325,7 +397,7 @@ func (e *c43Env) RoundTrip(req *http.Request) (*http.Response, error) {
 	if x.tp != "" {
 		sreq.Header.Set("traceparent", x.tp)
 	}
-	before := len(e.spans)
+	before, sb, eb := len(e.spans), x.tee.starts, x.tee.ends
 	rec := httptest.NewRecorder()
 	aborted := false
 	func() {
@@ -338,7 +410,7 @@ func (e *c43Env) RoundTrip(req *http.Request) (*http.Response, error) {
 	}()
 	exc, _, parsed := c43HasException(rec.Body.Bytes())
 	failed := exc || aborted || !parsed || rec.Code >= 400
-	e.observe(before, failed, x.line+" "+req.URL.Path)
+	e.observe(before, sb, eb, failed, x.line+" "+req.URL.Path)
 	if aborted {
 		return nil, errors.New("connection aborted by a handler panic")
 	}
@@ -421,6 +493,10 @@ func (e *c43Env) callPipe(l, kind, plan string) {
 		keys = append(keys, "traceparent")
 		vals = append(vals, x.tp)
 	}
+	if x.clientVer != "" {
+		keys = append(keys, vgirpc.MetaProtocolVersion)
+		vals = append(vals, x.clientVer)
+	}
 	reqBatch := array.NewRecordBatchWithMetadata(p.Schema(), p.Columns(), p.NumRows(), arrow.NewMetadata(keys, vals))
 	in := c43FrameStream(p.Schema(), []arrow.RecordBatch{reqBatch})
 	reqBatch.Release()
@@ -444,21 +520,21 @@ func (e *c43Env) callPipe(l, kind, plan string) {
 			b.Release()
 		}
 	}
-	before := len(e.spans)
+	before, sb, eb := len(e.spans), x.tee.starts, x.tee.ends
 	var out bytes.Buffer
 	e.srv.Serve(bytes.NewReader(in), &out)
 	exc, streams, parsed := c43HasException(out.Bytes())
 	if !parsed || streams == 0 {
 		e.c.Oracle("e2e-response-unreadable", fmt.Sprintf("%s: the pipe response is not a sequence of Arrow IPC streams (%d bytes)", l, out.Len()))
 	}
-	e.observe(before, exc || !parsed, l)
+	e.observe(before, sb, eb, exc || !parsed, l)
 }
 
 // ---------------------------------------------------------------- generator
 
 func c43GenE2E(g *Gen) {
 	r := g.Rng
-	for i, n := 0, g.N(260, 3000); i < n; i++ {
+	for i, n := 0, g.N(400, 4000); i < n; i++ {
 		b := func(p int) int {
 			if r.Chance(p) {
 				return 1
@@ -466,8 +542,37 @@ func c43GenE2E(g *Gen) {
 			return 0
 		}
 		transport := Pick(r, []string{"pipe", "pipe", "http"})
-		lines := []string{fmt.Sprintf("e2e %s %d %d %d %s %s", transport, b(90), b(90), b(70), Pick(r, []string{"tc", "tc", "tcb", "none"}),
-			Pick(r, []string{"always", "always", "always", "parent", "never"}))}
+		// server options: none of them may change what the hook reports about a call
+		var opts []string
+		if r.Chance(55) {
+			pv := Pick(r, []string{"1.2.0", "1.2.3", "2.0.0", "0.1.0"})
+			opts = append(opts, "pv="+pv)
+			switch x := r.Intn(100); {
+			case x < 50:
+				opts = append(opts, "cv="+pv) // matching
+			case x < 60:
+				opts = append(opts, "cv="+Pick(r, []string{"1.2.9", "1.2.1"})) // patch differs: still matching for 1.2.x
+			case x < 85:
+				opts = append(opts, "cv="+Pick(r, []string{"1.3.0", "3.0.0", "0.0.1", "1.1.9"})) // mismatching
+			} // else: client declares nothing
+		} else if r.Chance(25) {
+			opts = append(opts, "cv="+Pick(r, []string{"1.2.0", "9.9.9"})) // un-versioned server, versioned client
+		}
+		if r.Chance(30) {
+			opts = append(opts, "dbg")
+		}
+		if transport == "http" && r.Chance(30) {
+			opts = append(opts, "sticky")
+		}
+		if transport == "http" && r.Chance(30) {
+			opts = append(opts, "caps")
+		}
+		optTok := "-"
+		if len(opts) > 0 {
+			optTok = strings.Join(opts, ",")
+		}
+		lines := []string{fmt.Sprintf("e2e %s %d %d %d %s %s %s", transport, b(90), b(90), b(70), Pick(r, []string{"tc", "tc", "tcb", "none"}),
+			Pick(r, []string{"always", "always", "always", "parent", "never"}), optTok)}
 		for k, m := 0, r.Range(1, 5); k < m; k++ {
 			tp := "-"
 			if r.Chance(55) {
